@@ -116,10 +116,10 @@ def scenarios(quick: bool) -> list[tuple[dict, int]]:
     # (whatever the queue uses to tell arrivals apart must not wear out or wrap with use)
     for done in (30, 31, 33):
         for prios in (("DEFAULT",) * 6, ("DEFAULT", "DEFAULT", "HIGH", "DEFAULT", "LOW", "DEFAULT")):
-            cs = [caller(f"rq0004_{i % 12:02X}" if i % 2 else f"rq3220_{i:02X}", timeout=20.0, start="q" if i else "t0") for i in range(done)]
-            cs.append(caller("rq30c9_01", timeout=20.0, start="q"))
-            cs += [caller(f"rq30c9_0{k + 2}", prio=pr, timeout=20.0, start="with_prev") for k, pr in enumerate(prios)]
-            sc.append(({"qos_mode": False, "callers": cs, "dev": (), "probe": False, "max_steps": 20000}, 0))
+            cs = [caller(f"rq3220_{i:02X}", timeout=20.0, start="q" if i else "t0") for i in range(done)]
+            cs.append(caller("rq30c9_01", timeout=20.0, start="q"))  # (the controller never answers: this one stays in flight for seconds)
+            cs += [caller(f"rq3220_{0x40 + k:02X}", prio=pr, timeout=20.0, start="q") for k, pr in enumerate(prios)]
+            sc.append(({"qos_mode": False, "callers": cs, "env": {"deaf": ("01:145038",)}, "dev": (), "probe": False, "max_steps": 20000}, 0))
     # an echo that lands in the loop iteration right after its own timer fired (the re-send is abandoned), then the reply is lost
     for retries in (0, 1, 3):
         for wfr in (True, False):
